@@ -1,6 +1,7 @@
 import FitProps.C05Lemmas
 import FitProps.BitsLemmas
 import FitProps.AccumLemmas
+import FitProps.ExpandLemmas
 import FitModel.Generated.ProfileArith
 /-!
 # C05 — Expanded component fields carry exactly the value of their source bits
@@ -14,7 +15,8 @@ After the repair of F07 (/repo 1e2d662) the value statements hold in full for ev
 regenerated profile (`C05_value_exact`, `C05_value_within_one`).
 
 PROPERTY THEOREMS (audited by ./check): C05_pull_refines, C05_pull_in_order, C05_accumulate_total,
-C05_rows_in_range, C05_value_exact, C05_value_within_one, C05_expansion_off, C05_F07_witness_fixed
+C05_rows_in_range, C05_value_exact, C05_value_within_one, C05_expansion_off, C05_untouched, C05_on_minus_expanded,
+C05_F07_witness_fixed
 -/
 namespace Fit.C05
 open Fit.Expand Fit.Physical Fit.Msg Fit.C05L Fit.C12L Fit.F64
@@ -148,5 +150,63 @@ theorem C05_expansion_off (cv : CV) (p : Profile) (ms : List Message) :
   induction ms with
   | nil => intro acc done; simp
   | cons m ms ih => intro acc done; simp only [List.foldl_cons]; rw [ih]; simp
+
+/-! ### expansion on: what may change -/
+
+/-- **C05_untouched.** Whatever the arithmetic of a component (`cv`), the factory (`p`), the state of the accumulator
+and the message: after expansion every wire field is still at its position with the same `FieldBase` and the same
+`IsExpandedField` flag; its value is unchanged unless its number is the destination of a component this message can expand
+(field- or sub-field-level, transitively: `destsOf`); and every field beyond the wire fields is flagged expanded.
+The message number and the developer fields are untouched. -/
+theorem C05_untouched (cv : CV) (p : Profile) (acc : Fit.Accum.Acc) (m : Message) :
+    Inv (destsOf p m.num) m.fields (decodeTail cv p true acc m).2.fields ∧
+      (decodeTail cv p true acc m).2.num = m.num ∧ (decodeTail cv p true acc m).2.devFields = m.devFields :=
+  decodeTail_inv cv p true acc m
+
+/-- **Expansion off = on minus the expanded fields** (with the carve-out of the property for destinations present on the
+wire): if no wire field is flagged expanded, then dropping the flagged fields from the expanded message leaves exactly
+as many fields as were read, each with its `FieldBase`, and each equal to the wire field unless its number is a
+destination. -/
+theorem C05_on_minus_expanded (cv : CV) (p : Profile) (acc : Fit.Accum.Acc) (m : Message)
+    (hw : ∀ f ∈ m.fields, f.isExpanded = false) :
+    let on := (decodeTail cv p true acc m).2.fields
+    on.take m.fields.length = on.filter (!·.isExpanded) ∧
+      (on.filter (!·.isExpanded)).length = m.fields.length := by
+  intro on
+  have hinv : Inv (destsOf p m.num) m.fields on := (decodeTail_inv cv p true acc m).1
+  clear_value on
+  obtain ⟨hlen, hkeep, hext⟩ := hinv
+  have hsplit : on = on.take m.fields.length ++ on.drop m.fields.length := (List.take_append_drop _ _).symm
+  have htake : ∀ f ∈ on.take m.fields.length, f.isExpanded = false := by
+    intro f hf
+    obtain ⟨i, hi, rfl⟩ := List.getElem_of_mem hf
+    have hi' : i < m.fields.length := by
+      have := List.length_take_le m.fields.length on; omega
+    obtain ⟨f', hf', _, hx, _⟩ := hkeep i m.fields[i] (by simp [hi'])
+    have : (on.take m.fields.length)[i] = f' := by
+      have h2 : i < on.length := by omega
+      have h3 : on[i]? = some f' := hf'
+      rw [List.getElem?_eq_getElem h2] at h3
+      rw [List.getElem_take]
+      exact Option.some.inj h3
+    rw [this, hx]
+    exact hw _ (List.getElem_mem hi')
+  have hdrop : ∀ f ∈ on.drop m.fields.length, f.isExpanded = true := by
+    intro f hf
+    obtain ⟨i, hi, rfl⟩ := List.getElem_of_mem hf
+    have hi2 : m.fields.length + i < on.length := by
+      have := List.length_drop (i := m.fields.length) (l := on); omega
+    have : (on.drop m.fields.length)[i] = on[m.fields.length + i] := by simp
+    rw [this]
+    exact hext (m.fields.length + i) _ (by omega) (by rw [List.getElem?_eq_getElem hi2])
+  have hf1 : (on.take m.fields.length).filter (!·.isExpanded) = on.take m.fields.length :=
+    List.filter_eq_self.mpr (fun f hf => by simp [htake f hf])
+  have hf2 : (on.drop m.fields.length).filter (!·.isExpanded) = [] :=
+    List.filter_eq_nil_iff.mpr (fun f hf => by simp [hdrop f hf])
+  have hfilter : on.filter (!·.isExpanded) = on.take m.fields.length := by
+    conv_lhs => rw [hsplit]
+    rw [List.filter_append, hf1, hf2, List.append_nil]
+  refine ⟨hfilter.symm, ?_⟩
+  rw [hfilter, List.length_take]; omega
 
 end Fit.C05
